@@ -99,10 +99,16 @@ static inline std::string text(const Intent &it) {
   Intent j = it; for (auto &o : j.ops) if ((o.k == K_IMM || o.k == K_REL) && o.imm.pad > 20) { size_t over = flt - 99; o.imm.pad = o.imm.pad > (int)over + 20 ? o.imm.pad - (int)over : 20; }
   return text_raw(j);
 }
-static inline std::string text_raw(const Intent &it) {
+// the line with the operand's own size keyword written in front of register operand kwreg ("mov byte spl, al")
+static inline std::string text_kwreg(const Intent &it, size_t kwreg);
+static inline std::string text_raw_kw(const Intent &it, size_t kwreg);
+static inline std::string text_raw(const Intent &it) { return text_raw_kw(it, (size_t)-1); }
+static inline std::string text_kwreg(const Intent &it, size_t kwreg) { return text_raw_kw(it, kwreg); }
+static inline std::string text_raw_kw(const Intent &it, size_t kwreg) {
   std::string s = it.mn;
   for (size_t k = 0; k < it.ops.size(); k++) {
     s += k ? ", " : " ";
+    if (k == kwreg && it.ops[k].k == K_GPR) { int w = it.ops[k].width; s += w == 8 ? "byte " : w == 16 ? "word " : w == 32 ? "dword " : "qword "; }
     if (k == 0 && it.ops[k].k == K_REL && it.brkw) s += it.brkw == 1 ? "short " : "long ";
     if (k == 0 && it.far) s += "far ";
     if (it.kw_imm && it.ops[k].k == K_MEM) { WMem m = it.ops[k].m; m.kw = 0; s += memtext(m); continue; }
